@@ -135,6 +135,7 @@ func (c *Ctx) Load(patterns ...string) {
 			for _, e := range p.Errors {
 				Fatal("type/parse error in %s: %v", p.PkgPath, e)
 			}
+			normalizeComparisons(p)
 		}
 	})
 	if inRepo == 0 {
@@ -563,3 +564,66 @@ func DeclName(fd *ast.FuncDecl) string {
 	}
 	return fd.Name.Name
 }
+
+// normalizeComparisons rewrites, in the syntax trees of a repository package (before
+// SSA is built from them), every comparison whose left operand is a constant and whose
+// right operand is not, so that the constant is on the right: `0 < n` becomes `n > 0`,
+// `64 > i` becomes `i < 64`, `nil == p` becomes `p == nil`; an ordering of two
+// non-constant operands is spelled with < or <= (`n > i` becomes `i < n`); a constant
+// factor or term of a numeric product or sum is written last (`4*i` becomes `i*4`). The program is unchanged
+// (a constant operand has no effects to reorder) and every rule, syntactic or on SSA,
+// sees one spelling of a test against a constant whatever the author preferred.
+func normalizeComparisons(p *packages.Package) {
+	if p.TypesInfo == nil || normalized[p] {
+		return
+	}
+	normalized[p] = true
+	isConst := func(e ast.Expr) bool {
+		tv, ok := p.TypesInfo.Types[e]
+		if !ok {
+			return false
+		}
+		return tv.Value != nil || tv.IsNil()
+	}
+	for _, f := range p.Syntax {
+		ast.Inspect(f, func(n ast.Node) bool {
+			be, ok := n.(*ast.BinaryExpr)
+			if !ok {
+				return true
+			}
+			var mirror token.Token
+			switch be.Op {
+			case token.MUL, token.ADD:
+				// a constant factor or term is written last: 4*i becomes i*4, 1+n becomes n+1
+				if tv, ok := p.TypesInfo.Types[be]; ok {
+					if bt, isB := tv.Type.Underlying().(*types.Basic); isB && bt.Info()&types.IsNumeric != 0 && isConst(be.X) && !isConst(be.Y) {
+						be.X, be.Y = be.Y, be.X
+					}
+				}
+				return true
+			case token.EQL, token.NEQ:
+				mirror = be.Op
+			case token.LSS:
+				mirror = token.GTR
+			case token.GTR:
+				mirror = token.LSS
+			case token.LEQ:
+				mirror = token.GEQ
+			case token.GEQ:
+				mirror = token.LEQ
+			default:
+				return true
+			}
+			switch {
+			case isConst(be.X) && !isConst(be.Y):
+				be.X, be.Y, be.Op = be.Y, be.X, mirror
+			case !isConst(be.X) && !isConst(be.Y) && (be.Op == token.GTR || be.Op == token.GEQ):
+				// two variable operands: one spelling, with < or <=
+				be.X, be.Y, be.Op = be.Y, be.X, mirror
+			}
+			return true
+		})
+	}
+}
+
+var normalized = map[*packages.Package]bool{}
